@@ -261,8 +261,13 @@ def run_one(profile_name: str, seed: int, ops: list | None = None,
             new_snap = world.snapshot() if need_snap else {}
             vs = []
             if out["status"] != "skip":
-                for m in monitors:
-                    vs.extend(m.post(op, out, snap, new_snap))
+                # oracle-side evaluation never triggers injected faults
+                world.extra["fresh_mode"] = True
+                try:
+                    for m in monitors:
+                        vs.extend(m.post(op, out, snap, new_snap))
+                finally:
+                    world.extra["fresh_mode"] = False
             ev = {"i": step, "op": op, "out": outcome_class(out),
                   "ret": out.get("ret"),
                   "obs": snap_digest(new_snap) if need_snap else ""}
